@@ -10,6 +10,7 @@
 package c07
 
 import (
+	"context"
 	"fmt"
 	"testing"
 	"testing/synctest"
@@ -32,6 +33,59 @@ type runner struct {
 	nacts  int
 	kinds  map[string]int
 	errs   int
+	// SyncWait probes (driver TestC07Wait only): a SyncWait started at a quiescence inside the script
+	waitMode bool
+	waits    []*waiter
+}
+
+// waiter is one SyncWait call started after action number idx (1-based count of recorded actions).
+type waiter struct {
+	idx    int
+	before bool // it had returned nil at that very quiescence
+	after  bool // it had returned nil when the script was over
+	done   chan error
+	cancel context.CancelFunc
+}
+
+// probeWait starts SyncWait in a goroutine and records whether it returns without anything else happening.
+func (r *runner) probeWait(kind string) {
+	if !r.waitMode {
+		return
+	}
+	ctx, cancel := context.WithCancel(context.Background())
+	wt := &waiter{idx: r.nacts, done: make(chan error, 1), cancel: cancel}
+	go func() { wt.done <- r.f.Syncer.SyncWait(ctx) }()
+	synctest.Wait()
+	select {
+	case err := <-wt.done:
+		wt.before, wt.after = err == nil, err == nil
+		wt.done = nil
+		cancel()
+	default:
+	}
+	r.waits = append(r.waits, wt)
+	r.w.Count("sync_wait_probe", fmt.Sprintf("%s/returned_at_once=%v", kind, wt.before))
+}
+
+// finishWaits collects the SyncWait calls still blocked when the script is over.
+func (r *runner) finishWaits() string {
+	synctest.Wait()
+	var out []string
+	for _, wt := range r.waits {
+		if wt.done != nil {
+			select {
+			case err := <-wt.done:
+				wt.after = err == nil
+			default:
+				wt.cancel()
+				<-wt.done
+			}
+			wt.cancel()
+		}
+		r.w.Count("sync_wait_result", fmt.Sprintf("before=%v/after=%v", wt.before, wt.after))
+		out = append(out, fmt.Sprintf("(%d, %s, %s)", wt.idx, emit.B(wt.before), emit.B(wt.after)))
+	}
+	return emit.List(out)
 }
 
 func (r *runner) rec(act string, ret int, kind string) syncfx.Obs {
@@ -50,11 +104,17 @@ func (r *runner) deliverHdr(h *vhdr.Header, kind string) {
 	if ret == 0 {
 		ret = 3
 	}
+	skipping := ret == 1 && h.Height() > r.newest+1
 	if ret == 1 && h.Height() > r.newest {
 		r.newest = h.Height()
 	}
 	r.w.Count("deliver_ret", fmt.Sprint(ret))
 	r.rec(fmt.Sprintf("(DDeliver %s %s (Bif [] false))", r.f.Reg.Term(h), emit.Z(now)), ret, kind)
+	if skipping {
+		r.probeWait("after_skipping_delivery")
+	} else {
+		r.probeWait("after_other_delivery")
+	}
 }
 
 func (r *runner) deliver(n uint64, kind string) bool {
@@ -105,6 +165,11 @@ func (r *runner) answer(k int) bool {
 	r.w.Count("prefix_len", fmt.Sprint(k))
 	r.w.Count("req_size", fmt.Sprint(size))
 	r.rec(fmt.Sprintf("(DAnswer (APrefix %d))", k), 0, kind)
+	if k < size {
+		r.probeWait("after_partial_answer")
+	} else {
+		r.probeWait("after_full_answer")
+	}
 	return true
 }
 
@@ -117,6 +182,7 @@ func (r *runner) answerErr() bool {
 	r.w.Count("getter_error_kind", syncfx.ErrKindNames[k])
 	r.errs++
 	r.rec("(DAnswer AErr)", 0, "answer_err")
+	r.probeWait("after_getter_error")
 	return true
 }
 
@@ -133,6 +199,7 @@ type scenario struct {
 	nChain int
 	batch  int
 	script func(r *runner, rng *emit.Rand)
+	wait   bool // probe SyncWait inside the script (TestC07Wait)
 }
 
 func runScenario(t *testing.T, w *emit.Writer, sc scenario, rng *emit.Rand) {
@@ -141,8 +208,12 @@ func runScenario(t *testing.T, w *emit.Writer, sc scenario, rng *emit.Rand) {
 		if err != nil {
 			t.Fatalf("fixture: %v", err)
 		}
-		r := &runner{f: f, w: w, kinds: map[string]int{}, newest: f.Init[len(f.Init)-1].Height()}
+		r := &runner{f: f, w: w, kinds: map[string]int{}, newest: f.Init[len(f.Init)-1].Height(), waitMode: sc.wait}
 		sc.script(r, rng)
+		waits := ""
+		if sc.wait {
+			waits = r.finishWaits()
+		}
 		wait := f.SyncWaitReturns()
 		probe, _ := f.Probe()
 		reqs := len(f.Getter.Log)
@@ -150,6 +221,9 @@ func runScenario(t *testing.T, w *emit.Writer, sc scenario, rng *emit.Rand) {
 		term := fmt.Sprintf("Case07 %s %d %s %s %s %s %s", emit.Z(int64(header.VerifClockDrift())), sc.tail,
 			f.GenChainTerm(sc.tail, sc.nInit, 1), f.GenChainTerm(sc.tail+uint64(sc.nInit), sc.nChain, uint64(sc.nInit)+1),
 			emit.List(r.acts), emit.B(wait), probe)
+		if sc.wait {
+			term = fmt.Sprintf("Case07w (%s) %s", term, waits)
+		}
 		w.Add(term, map[string]any{"class": sc.class, "tail": sc.tail, "init": sc.nInit, "chain": sc.nChain, "actions": r.nacts,
 			"kinds": r.kinds, "requests": reqs, "newest": r.newest}, sc.class, reqs > 0)
 		w.Count("actions_per_case", fmt.Sprint(r.nacts/5*5))
